@@ -195,6 +195,7 @@ class RespSpec:
         self.bell = rng.randrange(4)
         self.outcome = rng.randrange(2)
         self.basis = rng.randrange(5)
+        self.cid = uid           # create_id on the wire (per-link numbering makes it repeat across remote nodes)
         self.form10 = False      # deliver in qlink-interface 1.0 form (converted by response_from_qlink_1_0)
         self.bellenum = False    # 1.0 form: bell_state as a qlink_interface.BellState member instead of an int
 
@@ -203,11 +204,11 @@ class RespSpec:
         import qlink_interface as ql10
         bell = ql10.BellState(self.bell) if self.bellenum else self.bell
         if self.ty == "K":
-            return ql10.ResCreateAndKeep(create_id=self.uid, directionality_flag=self.dir,
+            return ql10.ResCreateAndKeep(create_id=self.cid, directionality_flag=self.dir,
                                          sequence_number=self.seq, purpose_id=self.purpose,
                                          remote_node_id=self.remote, goodness=self.goodness, bell_state=bell,
                                          logical_qubit_id=self.phys, time_of_goodness=self.gtime)
-        return ql10.ResMeasureDirectly(create_id=self.uid, directionality_flag=self.dir,
+        return ql10.ResMeasureDirectly(create_id=self.cid, directionality_flag=self.dir,
                                        sequence_number=self.seq, purpose_id=self.purpose,
                                        remote_node_id=self.remote, goodness=self.goodness, bell_state=bell,
                                        measurement_outcome=self.outcome,
@@ -222,12 +223,12 @@ class RespSpec:
     def native(self):
         """the response as a qlink_compat tuple (reference for the oracles)"""
         if self.ty == "K":
-            return LinkLayerOKTypeK(type=ReturnType.OK_K, create_id=self.uid, logical_qubit_id=self.phys,
+            return LinkLayerOKTypeK(type=ReturnType.OK_K, create_id=self.cid, logical_qubit_id=self.phys,
                                     directionality_flag=self.dir, sequence_number=self.seq,
                                     purpose_id=self.purpose, remote_node_id=self.remote,
                                     goodness=self.goodness, goodness_time=self.gtime,
                                     bell_state=BellState(self.bell))
-        return LinkLayerOKTypeM(type=ReturnType.OK_M, create_id=self.uid, measurement_outcome=self.outcome,
+        return LinkLayerOKTypeM(type=ReturnType.OK_M, create_id=self.cid, measurement_outcome=self.outcome,
                                 measurement_basis=Basis(self.basis), directionality_flag=self.dir,
                                 sequence_number=self.seq, purpose_id=self.purpose,
                                 remote_node_id=self.remote, goodness=self.goodness,
@@ -235,18 +236,27 @@ class RespSpec:
 
     def fields(self):
         if self.ty == "K":
-            return [0, self.uid, self.phys, self.dir, self.seq, self.purpose, self.remote, self.goodness,
+            return [0, self.cid, self.phys, self.dir, self.seq, self.purpose, self.remote, self.goodness,
                     self.gtime, self.bell]
-        return [1, self.uid, self.outcome, self.basis, self.dir, self.seq, self.purpose, self.remote,
+        return [1, self.cid, self.outcome, self.basis, self.dir, self.seq, self.purpose, self.remote,
                 self.goodness, self.bell]
 
     def action(self):
         return {"a": "deliver", "ty": 0 if self.ty == "K" else 1, "remote": self.remote,
                 "purpose": self.purpose, "dir": self.dir, "phys": self.phys, "fields": self.fields()}
 
+    def ident(self):
+        """what identifies the response on the wire: a link numbers its create ids and pairs itself"""
+        return (self.remote, self.cid, self.seq, self.dir)
+
     def key(self):
         creator = (self.remote == NODE_ID) if self.dir == 1 else True
         return (self.remote, self.purpose, creator)
+
+
+def wire_ident(r):
+    """`RespSpec.ident` of a response object held by the executor (qlink_compat tuple)"""
+    return (r.remote_node_id, r.create_id, r.sequence_number, r.directionality_flag)
 
 
 class Scenario:
@@ -256,6 +266,7 @@ class Scenario:
         self.resps = []     # RespSpec
         self.malformed = False
         self.fault = None
+        self.one_comm = False
 
     def desc(self):
         """JSON form, complete (see `from_desc`)"""
@@ -282,14 +293,26 @@ class Scenario:
         return sc
 
 
-def gen_scenario(rng, max_reqs=3, max_pairs=3, small=False, malformed=False, mixed_roles=False, faults=False):
+def gen_scenario(rng, max_reqs=3, max_pairs=3, small=False, malformed=False, mixed_roles=False, faults=False,
+                 one_comm=False, per_link=False, two_remotes=False):
     """Well-formed scenarios (malformed=False) never make the executor raise: subroutines of one
     application own disjoint virtual qubit ids, a request's qubits are freed before a later request of the
-    same subroutine reuses them, response types match the request type, result arrays are long enough."""
+    same subroutine reuses them, response types match the request type, result arrays are long enough.
+
+    Link-layer behaviours (parameters):
+    * `one_comm`: ONE communication qubit (NV-like) — every keep response carries the SAME logical_qubit_id.
+      Keep requests are then of the sequential kind: all pairs of a request go to one virtual qubit, which the
+      program frees after each pair (wait for slice k, qfree), one keep request at a time;
+    * `per_link`: create ids and sequence numbers are numbered PER LINK (remote node), so responses of
+      different remote nodes carry equal (create_id, sequence_number);
+    * `two_remotes`: the first two requests go to two different remote nodes."""
     sc = Scenario()
     sc.malformed = malformed
+    sc.one_comm = one_comm
+    small = small or one_comm
     napps = 1 if small else rng.choice([1, 1, 2])
-    nreq = rng.randint(2 if mixed_roles else 1, max(2, max_reqs) if mixed_roles else max_reqs)
+    nreq = rng.randint(2 if (mixed_roles or two_remotes) else 1,
+                       max(2, max_reqs) if (mixed_roles or two_remotes) else max_reqs)
     nsubs = 1 if small else rng.choice([1, 1, 2, 2, 3])
     nsubs = min(nsubs, nreq)
     sub_app = [rng.randrange(napps) for _ in range(nsubs)]
@@ -309,9 +332,13 @@ def gen_scenario(rng, max_reqs=3, max_pairs=3, small=False, malformed=False, mix
         own.append(ids if malformed and rng.random() < 0.5 else ids[j::k])
     # few keys so that queues get longer than one
     keys = [(rng.choice([1, 2]), rng.choice([0, 1])) for _ in range(1 if mixed_roles else rng.choice([1, 1, 2]))]
+    if two_remotes:
+        keys = [(1, rng.choice([0, 1])), (2, rng.choice([0, 1]))]
     first_role = rng.choice(["create", "recv"])
     uid = 0
     keytype = {}
+    link_cid = {}     # per-link numbering: next create id / sequence number of each remote node
+    link_seq = {}
     for i in range(nreq):
         si = i if i < nsubs else rng.randrange(nsubs)
         sp = sc.subs[si]
@@ -320,12 +347,17 @@ def gen_scenario(rng, max_reqs=3, max_pairs=3, small=False, malformed=False, mix
             # create and receive roles on ONE socket
             role = first_role if i == 0 else ("recv" if first_role == "create" else "create")
         ty = rng.choice(["K", "M"])
-        remote, purpose = rng.choice(keys)
+        remote, purpose = keys[i] if (two_remotes and i < 2) else rng.choice(keys)
         if not (malformed and rng.random() < 0.5):
             # one request type per queue (a measure response may overtake a deferred keep response)
             ty = keytype.setdefault((remote, purpose, role), ty)
         number = rng.randint(1, min(max_pairs, len(own[si])) if ty == "K" else max_pairs)
         vids = rng.sample(own[si], number) if ty == "K" else None
+        seqstyle = one_comm and ty == "K"
+        if seqstyle:
+            # sequential kind: every pair of the request arrives in the same virtual qubit
+            number = rng.randint(1, max_pairs)
+            vids = [rng.choice(own[si])] * number
         req = Req(role, ty, remote, purpose, number, vids)
         # earlier requests of this subroutine holding some of these qubits finish (and free) first
         if ty == "K":
@@ -353,7 +385,7 @@ def gen_scenario(rng, max_reqs=3, max_pairs=3, small=False, malformed=False, mix
         busy = []
         if ty == "K" and rng.random() < 0.5:
             # the program still holds some of the virtual qubits: responses must be deferred
-            for v in rng.sample(vids, rng.randint(1, len(vids))):
+            for v in ([vids[0]] if seqstyle else rng.sample(vids, rng.randint(1, len(vids)))):
                 sp.op_qalloc(v)
                 busy.append(v)
         if role == "create":
@@ -377,7 +409,13 @@ def gen_scenario(rng, max_reqs=3, max_pairs=3, small=False, malformed=False, mix
                 lo = rng.randrange(reslen)
                 sp.op_wait("any", res, lo, rng.randint(lo + 1, reslen))
         req._res, req._q = res, q
-        if rng.random() < 0.6:
+        if seqstyle:
+            # consume the pairs one by one: wait for slice k, then free the qubit for the next pair
+            for k in range(number):
+                sp.op_wait("all", res, OK_FIELDS_K * k, OK_FIELDS_K * (k + 1))
+                sp.op_qfree(vids[0])
+            req._waited = req._freed = True
+        elif rng.random() < 0.6:
             _final_wait(sp, req, rng)
         # responses for this request
         for k in range(number):
@@ -385,10 +423,16 @@ def gen_scenario(rng, max_reqs=3, max_pairs=3, small=False, malformed=False, mix
             if malformed and rng.random() < 0.15:
                 rty = "M" if ty == "K" else "K"
             sc.resps.append(RespSpec(uid, rty, remote, purpose_of(remote, purpose), 1 if role == "recv" else 0,
-                                     100 + uid, rng))
+                                     0 if one_comm else 100 + uid, rng))
             sc.resps[-1].form10 = rng.random() < 0.4
             sc.resps[-1].bellenum = rng.random() < 0.5
+            if per_link:
+                sc.resps[-1].cid = link_cid.get(remote, 0)
+                sc.resps[-1].seq = link_seq.get(remote, 0)
+                link_seq[remote] = link_seq.get(remote, 0) + 1
             uid += 1
+        if per_link:
+            link_cid[remote] = link_cid.get(remote, 0) + 1
     if malformed and rng.random() < 0.15:
         # an instruction the base executor has no handler for (RuntimeError "unknown instr type"); for the
         # bookkeeping model this is just an instruction that raises (a store to a non-existent array)
@@ -450,6 +494,9 @@ def gen_scenario(rng, max_reqs=3, max_pairs=3, small=False, malformed=False, mix
         rty = rng.choice(same) if same and not malformed else rng.choice(["K", "M"])
         sc.resps.append(RespSpec(uid, rty, remote, purpose_of(remote, purpose), dirflag, 100 + uid, rng))
         sc.resps[-1].form10 = rng.random() < 0.4
+        if per_link:
+            sc.resps[-1].cid = link_cid.get(remote, 0)
+            sc.resps[-1].seq = link_seq.get(remote, 0)
         uid += 1
     if malformed and rng.random() < 0.3 and len(sc.resps) > 1:
         sc.resps[-1].phys = sc.resps[0].phys    # physical id not fresh
@@ -524,7 +571,7 @@ def exhaustive_schedules(sc, cap):
 # ------------------------------------------------------------------ replay on the real executor
 
 
-def canon_real(ex, uid2idx):
+def canon_real(ex, uid2idx, ident2uid):
     apps = {}
     for app, um in ex._qubit_unit_modules.items():
         arrs = ex._app_arrays[app]._arrays
@@ -537,7 +584,7 @@ def canon_real(ex, uid2idx):
                     (e.subroutine_id, e.ent_results_array_address, e.q_array_address, e.tot_pairs, e.pairs_left)
                     for e in lst]
     return {"apps": apps, "used": sorted(ex._used_physical_qubit_addresses), "queues": queues,
-            "pending": [uid2idx.get(r.create_id, -1) for r in ex._pending_epr_responses],
+            "pending": [uid2idx.get(ident2uid.get(wire_ident(r), -1), -1) for r in ex._pending_epr_responses],
             "subs": {sid: s.app_id for sid, s in sorted(ex._subroutines.items())}}
 
 
@@ -567,6 +614,8 @@ class Oracle:
         self.violations = []
         self.mixed = False
         self.known_uids = {r.uid for r in sc.resps}
+        self.ident2uid = {r.ident(): r.uid for r in sc.resps}
+        assert len(self.ident2uid) == len(sc.resps), "harness: responses must be distinguishable on the wire"
         self.expected_issue = []     # true keys of requests issued by the step just executed
         self.true_key = {}           # id(obj) -> (remote, purpose by the stack, creator?)
         self.true_order = {}         # true key -> [id(obj)] in issue order
@@ -575,11 +624,12 @@ class Oracle:
 
     def snapshot(self, ex):
         for r in ex._pending_epr_responses:
-            if r.create_id not in self.known_uids and not self.foreign_reported:
+            if wire_ident(r) not in self.ident2uid and not self.foreign_reported:
                 self.foreign_reported = True
                 self.bad("a response delivered to ANOTHER executor instance is in this executor's pending list",
-                         uid=r.create_id)
-        snap = {"pending": [r.create_id for r in ex._pending_epr_responses if r.create_id in self.known_uids],
+                         ident=wire_ident(r))
+        snap = {"pending": [self.ident2uid[wire_ident(r)] for r in ex._pending_epr_responses
+                            if wire_ident(r) in self.ident2uid],
                 "queues": {}, "units": {}}
         # every outstanding create request was accepted by the network stack (`put` returned)
         accepted = ex.network_stack.requests
@@ -615,9 +665,9 @@ class Oracle:
     def quiescent(self, ex, resp_by_uid):
         per_key_pending = {}
         for r in ex._pending_epr_responses:
-            if r.create_id not in resp_by_uid:
+            if wire_ident(r) not in self.ident2uid:
                 continue
-            spec = resp_by_uid[r.create_id]
+            spec = resp_by_uid[self.ident2uid[wire_ident(r)]]
             key = spec.key()
             per_key_pending.setdefault(key, []).append(spec)
             d = ex._epr_create_requests if key[2] else ex._epr_recv_requests
@@ -987,7 +1037,7 @@ class Replayer:
             self.steps.append(rec)
             self.stopped = True
             return
-        rec["obs"] = canon_real(ex, self.uid2idx)
+        rec["obs"] = canon_real(ex, self.uid2idx, self.oracle.ident2uid)
         for a in acts:
             if a.get("a") in ("create", "recv"):
                 self.oracle.expected_issue.append((a["remote"], a["purpose"], a["a"] == "create"))
@@ -1207,7 +1257,7 @@ def make_responses(c, rng, role):
         r.seq = rng.randrange(1 << 16)
         r.goodness = rng.randrange(1 << 20)
         r.gtime = rng.randrange(1 << 20)
-        r.uid = rng.randrange(1 << 16)
+        r.cid = rng.randrange(1 << 16)
         r.form10 = rng.random() < 0.4
         r.bellenum = rng.random() < 0.5
         out.append(r)
@@ -1530,7 +1580,7 @@ def run_hw_case(c, pair_of_handle=None):
         r.seq = 100 + k
         r.goodness = rrng.randrange(1 << 20)
         r.gtime = rrng.randrange(1 << 20)
-        r.uid = rrng.randrange(1 << 16)
+        r.cid = rrng.randrange(1 << 16)
         resps.append(r)
     todo = list(resps)
 
